@@ -32,6 +32,17 @@ def _fb(M, P):
     return _FB[(M, P)]
 
 
+def _T(c):
+    """Integer arguments as the caller's numeric type: plain Python ints, or numpy fixed-width integers (what comes out of a
+    header array / an arange) whenever the value fits the type."""
+    nt = c.get('ntype')
+    if not nt:
+        return lambda x: x
+    ty = np.dtype(nt).type
+    info = np.iinfo(nt)
+    return lambda x: ty(x) if info.min <= int(x) <= info.max else int(x)
+
+
 def _mk(c):
     """Backend with shared filterbank objects (list form: no deepcopy) and the data path stubbed."""
     import setigen.voltage as sv
@@ -49,9 +60,10 @@ def _mk(c):
     bps = 2 * npol * c['bits'] // 8
     spb = c['spb']
     block_size = spb * na * c['nchans'] * bps
-    be = sv.RawVoltageBackend(src, digitizer=dig, filterbank=fbl, requantizer=rq, start_chan=0,
-                              num_chans=c['nchans'], block_size=block_size, blocks_per_file=1000,
-                              num_subblocks=1)
+    t = _T(c)
+    be = sv.RawVoltageBackend(src, digitizer=dig, filterbank=fbl, requantizer=rq, start_chan=t(0),
+                              num_chans=t(c['nchans']), block_size=t(block_size), blocks_per_file=t(1000),
+                              num_subblocks=t(1))
     captured = []
 
     def fake_header(f, header_dict):
@@ -81,6 +93,7 @@ def case_arith(c):
         return {'viol': viol}
     rate, P, spb = c['rate'], c['P'], c['spb']
     na, nch, npol, bits = c['nants'], c['nchans'], c['npol'], c['bits']
+    t = _T(c)
     n_eval = 0
     if be.samples_per_block != spb:
         V('samples_per_block', 'samples_per_block=%r expected %d' % (be.samples_per_block, spb))
@@ -94,7 +107,7 @@ def case_arith(c):
     for n in c['num_blocks']:
         del cap[:]
         try:
-            be.record(output_file_stem=stem, num_blocks=n, length_mode='num_blocks', header_dict={},
+            be.record(output_file_stem=stem, num_blocks=t(n), length_mode='num_blocks', header_dict={},
                       load_template=False, verbose=False)
         except Exception as e:
             V('record_raised', 'num_blocks=%d: %s: %s' % (n, type(e).__name__, e), site='RawVoltageBackend.record')
@@ -122,9 +135,9 @@ def case_arith(c):
                 V('pktidx', 'last PKTIDX=%r' % cap[-1]['PKTIDX'], site='RawVoltageBackend.record')
         # stand-alone helper
         try:
-            g = sv.get_total_obs_num_samples(num_blocks=n, length_mode='num_blocks', num_antennas=na,
-                                             sample_rate=rate, block_size=block_size, num_bits=bits,
-                                             num_pols=npol, num_branches=P, num_chans=nch)
+            g = sv.get_total_obs_num_samples(num_blocks=t(n), length_mode='num_blocks', num_antennas=t(na),
+                                             sample_rate=rate, block_size=t(block_size), num_bits=t(bits),
+                                             num_pols=t(npol), num_branches=t(P), num_chans=t(nch))
             if g != tot:
                 V('helper_total', 'get_total_obs_num_samples(num_blocks=%d)=%r exact %d' % (n, g, tot),
                   site='backend.get_total_obs_num_samples')
@@ -172,9 +185,9 @@ def case_arith(c):
                     V('duration_bound', 'blocks=%d for %s blocks requested' % (be.num_blocks, float(q)),
                       site='RawVoltageBackend.record')
             try:
-                g = sv.get_total_obs_num_samples(obs_length=d, length_mode='obs_length', num_antennas=na,
-                                                 sample_rate=rate, block_size=block_size, num_bits=bits,
-                                                 num_pols=npol, num_branches=P, num_chans=nch)
+                g = sv.get_total_obs_num_samples(obs_length=d, length_mode='obs_length', num_antennas=t(na),
+                                                 sample_rate=rate, block_size=t(block_size), num_bits=t(bits),
+                                                 num_pols=t(npol), num_branches=t(P), num_chans=t(nch))
                 if g not in {a * spb * P for a in allowed}:
                     V('helper_total', 'get_total_obs_num_samples(obs_length=%r)=%r; allowed blocks %s x %d'
                       % (d, g, sorted(allowed), spb * P), site='backend.get_total_obs_num_samples')
@@ -187,8 +200,8 @@ def case_arith(c):
             n_eval += 1
             tch = 3
             try:
-                bs = sv.get_block_size(num_antennas=na, tchans_per_block=tch, num_bits=bits, num_pols=npol,
-                                       num_branches=P, num_chans=nch, fftlength=N, int_factor=I)
+                bs = sv.get_block_size(num_antennas=t(na), tchans_per_block=t(tch), num_bits=t(bits), num_pols=t(npol),
+                                       num_branches=t(P), num_chans=t(nch), fftlength=t(N), int_factor=t(I))
                 want = tch * N * I * na * nch * (2 * npol * bits // 8)
                 if bs != want:
                     V('get_block_size', 'get_block_size=%r expected %d' % (bs, want), site='backend.get_block_size')
@@ -197,7 +210,7 @@ def case_arith(c):
             df_x = F(rate) / P / N
             dt_x = Fr(N * I * P) / F(rate)
             try:
-                udr = level_utils.get_unit_drift_rate(be, N, I)
+                udr = level_utils.get_unit_drift_rate(be, t(N), t(I))
                 wantu = df_x / dt_x
                 # signed like the backend's own channel bandwidth (negative for descending bands): a one-pixel shift in a
                 # descending product is a negative frequency step -- "agrees with the backend for the same inputs"
@@ -210,7 +223,7 @@ def case_arith(c):
             k = 5
             obs = float((Fr(k) + Fr(1, 2)) * dt_x)
             try:
-                pd = stg.params_from_backend(obs_length=obs, sample_rate=rate, num_branches=P, fftlength=N, int_factor=I)
+                pd = stg.params_from_backend(obs_length=obs, sample_rate=rate, num_branches=t(P), fftlength=t(N), int_factor=t(I))
                 if abs(F(pd['df']) - df_x) > df_x * Fr(1, 10**12) or abs(F(pd['dt']) - dt_x) > dt_x * Fr(1, 10**12) \
                         or pd['tchans'] != k:
                     V('params_from_backend', 'params_from_backend=%r; exact df=%r dt=%r tchans=%d'
@@ -218,8 +231,8 @@ def case_arith(c):
                 # the Frame classmethod must agree with the stand-alone function and the backend
                 import io as _io, contextlib as _cl
                 with _cl.redirect_stdout(_io.StringIO()):
-                    frm = stg.Frame.from_backend_params(fchans=4, obs_length=obs, sample_rate=rate, num_branches=P,
-                                                        fftlength=N, int_factor=I, fch1=6e9 if 6e9 / float(df_x) <= 2.0**36 else 1e3)
+                    frm = stg.Frame.from_backend_params(fchans=t(4), obs_length=obs, sample_rate=rate, num_branches=t(P),
+                                                        fftlength=t(N), int_factor=t(I), fch1=6e9 if 6e9 / float(df_x) <= 2.0**36 else 1e3)
                 if frm.df != pd['df'] or frm.dt != pd['dt'] or frm.tchans != pd['tchans']:
                     V('frame_from_backend_params', 'Frame.from_backend_params -> df=%r dt=%r tchans=%r; params_from_backend -> %r '
                       '(num_branches=%d)' % (frm.df, frm.dt, frm.tchans, pd, P), site='Frame.from_backend_params')
@@ -386,7 +399,14 @@ def run(ctx):
                                                       dur_n=[1, 2, 7, 50] if not T else [1, 2, 3, 7, 19, 50],
                                                       dur_q=[0.0, 1e-12, -1e-12, 1e-6, -1e-6, 0.5],
                                                       fft=[1, 2, 4, 1024], asc=(bits == 8)))
-    ctx.pmap(case_arith, cases)
+    # the same arithmetic with every integer argument handed over as a numpy fixed-width integer (whenever the value fits the
+    # type): sub-box of the constructors above, FFT lengths up to 2^20
+    typed = []
+    for base in cases:
+        if base['rate'] == RATES[0] and base['M'] == TAPS[0] and base['nants'] <= 2 and base['spb'] == TAPS[0] * SPB_MULT[0]:
+            for nt in ('int64', 'int32', 'int16', 'uint8'):
+                typed.append(dict(base, ntype=nt, fft=[1, 4, 16, 128, 1024, 50000, 65536, 1048576], dur_n=[1, 7], num_blocks=nbs[:3]))
+    ctx.pmap(case_arith, typed)
     real = []
     for rate in (1e3, 3e9):
         for (M, P) in ((2, 4), (3, 8)):
